@@ -1362,6 +1362,9 @@ def shard_bundled_c04(seed, idx, files, deadline, tier):
                         sig = pr[0][0]
                         if how == "clone" and top_external(nl_t):
                             sig = K.SIG_C04_CLONE
+                        elif sig == "compose.raises.assert" and "desc" in V.assign_shapes(v1):
+                            # the writer asserts on every assign whose pins run MSB first (what the unrepaired reader builds)
+                            sig = K.SIG_C04_ASSIGN
                         res.spec_failure(sig, dict(inp, transform=how, options=list(combo), rng=rs),
                                          "; ".join("%s: %s" % p for p in pr[:3]))
                         break
